@@ -53,8 +53,17 @@ def probe(Color, ColorPair, bulk, v, bgv):
     return line, viol
 
 
+def regen():
+    """CmGen/ParserSeq.lean: the tuple/list branch and the top-level dispatch of parse_color_to_rgb as they read now (the
+    `source_*` theorems of CmProps/C14seq.lean identify them with the model's parseColor)"""
+    from translate import parserseq
+    parserseq.generate()
+
+
 def check(run):
-    run.proof = proof_status("C14")
+    run.proof = proof_status("C14", regenerate=regen)
+    from translate import parserseq as _ps
+    run.extra["source_translation_parser_sequences"] = _ps.summary()
     q = run.quick()
     repo_import()
     from cm_colors import Color, ColorPair, make_readable_bulk
